@@ -107,9 +107,17 @@ func main() {
 			res2 := runOne(*world, *prop, *variant, *seed, i, res.Tape, true)
 			res2.Cfg["replayed_for_trace"] = true
 			if res2.Digest != res.Digest {
-				res2.Violations = append(res2.Violations, kernel.Violation{Property: "HARNESS", Class: "nondeterminism", Key: "trace-rerun", Detail: "re-running the recorded tape gave a different history digest"})
+				// The second execution in the same process did not repeat the
+				// first: the library keeps state between calls (a pool, a
+				// cache).  On the unchanged tree this cannot happen (see
+				// ./check --selftest); keep what was observed, with the trace
+				// of the second execution for orientation, and let the driver
+				// try to reproduce it in fresh processes.
+				res.Cfg["trace_rerun_digest_differs"] = true
+				res.Trace = append([]string{"# trace of a second execution of the same tape in the same process (its digest differs from the first: the library kept state)"}, res2.Trace...)
+			} else {
+				res = res2
 			}
-			res = res2
 		}
 		if len(res.Violations) == 0 && !*keepTape {
 			res.Tape = nil
